@@ -19,8 +19,8 @@ use std::io::Cursor;
 
 pub const NONCE_LEN: usize = 16;
 pub const TAG_LEN: usize = 16;
-pub const MAX_AAD: usize = 192;
-pub const MAX_CT: usize = 96;
+pub const MAX_AAD: usize = 152;
+pub const MAX_CT: usize = 64;
 
 // ------------------------------------------------------------------ ideal AEAD with ghost log
 #[derive(Clone, Copy)]
@@ -290,8 +290,38 @@ pub fn aes256_decrypt_stub(_s: &AesSivCmac256, nonce: &[u8], ct: &[u8], _aad: &[
 }
 
 pub fn real_keyset(id_offset: u32) -> ntp_proto::KeySet {
-    let keys = vec![AesSivCmac512::try_from([0u8; 64].iter()).unwrap()];
+    // GenericArray from an array: no loop (`try_from` collects byte by byte)
+    let keys = vec![AesSivCmac512::new([0u8; 64].into())];
     ntp_proto::verif::keyset::keyset_from_parts(keys, id_offset, 0)
+}
+
+/// Loop-free models of `AesSivCmac256::try_from` / `AesSivCmac512::try_from` (length check + copy
+/// of the key bytes; the real ones collect an iterator into a GenericArray, a 32/64-trip loop that
+/// would force a large global unwind bound on every other loop of the decoder).
+pub fn aes256_try_from_stub(key_bytes: &[u8]) -> Result<AesSivCmac256, ntp_proto::verif::packet::crypto::KeyError> {
+    if key_bytes.len() != 32 {
+        return Err(ntp_proto::verif::packet::crypto::KeyError);
+    }
+    let mut a = [0u8; 32];
+    macro_rules! take { ($($i:expr),*) => { $( a[$i] = key_bytes[$i]; )* } }
+    take!(0, 1, 2, 3, 4, 5, 6, 7, 8, 9, 10, 11, 12, 13, 14, 15, 16, 17, 18, 19, 20, 21, 22, 23, 24, 25, 26, 27, 28, 29, 30, 31);
+    Ok(AesSivCmac256::new(a.into()))
+}
+pub fn aes512_try_from_stub<I>(key_bytes: I) -> Result<AesSivCmac512, ntp_proto::verif::packet::crypto::KeyError>
+where
+    I: IntoIterator,
+    I::Item: std::borrow::Borrow<u8>,
+    I::IntoIter: ExactSizeIterator,
+{
+    use std::borrow::Borrow;
+    let mut it = key_bytes.into_iter();
+    if it.len() != 64 {
+        return Err(ntp_proto::verif::packet::crypto::KeyError);
+    }
+    let mut a = [0u8; 64];
+    macro_rules! take { ($($i:expr),*) => { $( a[$i] = match it.next() { Some(b) => *b.borrow(), None => 0 }; )* } }
+    take!(0, 1, 2, 3, 4, 5, 6, 7, 8, 9, 10, 11, 12, 13, 14, 15, 16, 17, 18, 19, 20, 21, 22, 23, 24, 25, 26, 27, 28, 29, 30, 31, 32, 33, 34, 35, 36, 37, 38, 39, 40, 41, 42, 43, 44, 45, 46, 47, 48, 49, 50, 51, 52, 53, 54, 55, 56, 57, 58, 59, 60, 61, 62, 63);
+    Ok(AesSivCmac512::new(a.into()))
 }
 
 // ------------------------------------------------------------------ packet images
